@@ -33,6 +33,12 @@ claimed = {
  "C13": ("exact decision table of the expiry filter by valuation enumeration", "DESIGN §3.3, §4 C13, Appendix A.1 DT-EXPIRY",
    "KEEP implies not expired and DROP implies expired (or bottom tombstone) for every valuation of the seven comparison atoms consistent with the order theory; refs are never dropped by expiry; an expiring compaction publishes its result.",
    "byte-for-byte preservation of kept entries is not decided (C01)"),
+ "C03": ("decision tables + dataflow of the merged iterator", "DESIGN §3.3, §4 C03",
+   "Heap order, shadow loop, deletion suppression and the NewMerged precondition agree with the specification for every valuation of their comparison atoms; heap entry index = slot of the producing sub-iterator, slots never move, merged seek consults every table in stack order and returns a suppressing merged iterator; stack view suppresses, compaction view does not.",
+   "heap sift arithmetic and per-table iterator correctness are not decided"),
+ "C12": ("decision tables of the name validator / conflict walk + gate typestate (narrow)", "DESIGN §3.3, §4 C12",
+   "Component validity table exact; acceptance requires validated name, negative prefix lookup and a complete ancestor walk; name check is a gate before a table is renamed into place; unchecked only with SkipNameCheck; validation view hides deletions.",
+   "completeness over histories and the cross-table check within one multi-table Addition are NOT decided"),
 }
 not_applicable_reason = {
  "C17": "quantifies over numeric size vectors and workload sizes (size classes, cumulative byte sums, 2*log2 N depth, N*log2 N cost); no clause is decidable from the shape of the code, and evaluating the chooser on enumerated vectors would be a runtime test (DESIGN §4 C17)",
